@@ -20,7 +20,7 @@ Section CanTable.
   Notation AW := (assets_of e ke W).
   Notation RC := (Rg e ke true).
 
-  Definition tbl (m : ms) (s : bool) : list wit := if s then all_sat ke AW m else all_dsat ke AW m.
+  Definition dn_tbl (m : ms) (s : bool) : list wit := if s then all_sat ke AW m else all_dsat ke AW m.
 
   Lemma find_sig k sg : In sg W -> sg <> [] -> e_sigok e (kb ke k) sg = true -> a_sig AW k = Some sg.
   Proof.
@@ -28,7 +28,7 @@ Section CanTable.
     destruct (find _ W) as [y|] eqn:Ef.
     - apply find_some in Ef. destruct Ef as [Hy Hp]. apply andb_prop in Hp. destruct Hp as [Hn Ho].
       f_equal. destruct HU as [Hu _]. apply (Hu k y sg); auto. intros ->. discriminate.
-    - exfalso. apply (find_none _ _ Ef) in Hin. destruct sg; [congruence|]. cbn [nonnil andb] in Hin. congruence.
+    - exfalso. apply (find_none _ _ Ef) in Hin. destruct sg; [congruence|]. cbn [dn_nonnil andb] in Hin. congruence.
   Qed.
 
   Lemma find_pre hf h x : uniq_pre hf W -> In x W -> blen x = 32%N -> hf x = h -> wfind_pre hf W h = Some x.
@@ -120,7 +120,7 @@ Section CanTable.
   Qed.
 
   (* ---------- thresh ---------- *)
-  Lemma can_thr xs : Forall (fun x => forall s w v, incl w W -> RC x s w v -> In w (tbl x s)) xs ->
+  Lemma can_thr xs : Forall (fun x => forall s w v, incl w W -> RC x s w v -> In w (dn_tbl x s)) xs ->
     forall w j, incl w W -> Rthr (fun x => RC x) xs w j -> In w (thresh_comb j (map (sd ke AW) xs)).
   Proof.
     induction 1 as [|x r Hx _ IH]; intros w j Hin H.
@@ -129,19 +129,19 @@ Section CanTable.
       destruct (sd ke AW x) as [sx dx] eqn:Ex. apply in_or_app.
       destruct H as [[j' [-> [H1 H2]]]|[H1 H2]].
       + left. apply in_cross. exists wx, wr. split; [|split; [|reflexivity]].
-        * pose proof (Hx true wx _ (incl_app_l _ _ _ Hin) H1) as Hs. unfold tbl, all_sat in Hs. rewrite Ex in Hs. exact Hs.
+        * pose proof (Hx true wx _ (incl_app_l _ _ _ Hin) H1) as Hs. unfold dn_tbl, all_sat in Hs. rewrite Ex in Hs. exact Hs.
         * apply IH; [eapply incl_app_r; eassumption | exact H2].
       + right. apply in_cross. exists wx, wr. split; [|split; [|reflexivity]].
-        * pose proof (Hx false wx _ (incl_app_l _ _ _ Hin) H1) as Hs. unfold tbl, all_dsat in Hs. rewrite Ex in Hs. exact Hs.
+        * pose proof (Hx false wx _ (incl_app_l _ _ _ Hin) H1) as Hs. unfold dn_tbl, all_dsat in Hs. rewrite Ex in Hs. exact Hs.
         * apply IH; [eapply incl_app_r; eassumption | exact H2].
   Qed.
 
   Ltac cross_in a b := apply in_cross; exists a, b; split; [|split; [|reflexivity]].
 
-  Theorem can_table : forall m s w v, incl w W -> RC m s w v -> In w (tbl m s).
+  Theorem can_table : forall m s w v, incl w W -> RC m s w v -> In w (dn_tbl m s).
   Proof.
     destruct HU as [_ [Hu1 [Hu2 [Hu3 Hu4]]]].
-    induction m using ms_ind'; intros s w v Hin HR; cbn [Rg] in HR; unfold tbl.
+    induction m using ms_ind'; intros s w v Hin HR; cbn [Rg] in HR; unfold dn_tbl.
     - destruct HR as [-> [-> _]]. left. reflexivity.
     - destruct HR as [-> [-> _]]. left. reflexivity.
     - (* pk_k *) destruct HR as [sg [-> [-> [_ Hs]]]]. cbn [all_sat all_dsat sd fst snd]. destruct s.
@@ -170,22 +170,22 @@ Section CanTable.
     - (* n: *) destruct HR as [_ [v' [HR _]]]. exact (IHm s w v' Hin HR).
     - (* and_v *) destruct HR as [wx [wy [-> [Hx Hy]]]].
       pose proof (IHm1 true wx _ (incl_app_l _ _ _ Hin) Hx) as H1. pose proof (IHm2 s wy _ (incl_app_r _ _ _ Hin) Hy) as H2.
-      unfold tbl in H1, H2. destruct s; [rewrite sat_and_v | rewrite dsat_and_v]; cross_in wx wy; assumption.
+      unfold dn_tbl in H1, H2. destruct s; [rewrite sat_and_v | rewrite dsat_and_v]; cross_in wx wy; assumption.
     - (* and_b *) destruct HR as [wx [wy [vx [vy [sx [sy [-> [Hx [Hy [_ [_ [Hs [_ Hc]]]]]]]]]]]]].
       rewrite <- (Hc eq_refl) in *. assert (sx = s) by (destruct sx; auto). subst sx.
       pose proof (IHm1 s wx _ (incl_app_l _ _ _ Hin) Hx) as H1. pose proof (IHm2 s wy _ (incl_app_r _ _ _ Hin) Hy) as H2.
-      unfold tbl in H1, H2. unfold all_sat, all_dsat. rewrite sd_and_b. destruct s; cbn [fst snd]; cross_in wx wy; assumption.
+      unfold dn_tbl in H1, H2. unfold all_sat, all_dsat. rewrite sd_and_b. destruct s; cbn [fst snd]; cross_in wx wy; assumption.
     - (* andor *) destruct HR as [wa [w' [va [-> [[Ha [_ [Hb Hc]]]|[Ha [_ Hc]]]]]]].
       + rewrite (Hc eq_refl) in *.
         pose proof (IHm1 true wa _ (incl_app_l _ _ _ Hin) Ha) as H1. pose proof (IHm2 true w' _ (incl_app_r _ _ _ Hin) Hb) as H2.
-        unfold tbl in H1, H2. unfold all_sat. rewrite sd_andor. cbn [fst]. apply in_or_app. left. cross_in wa w'; assumption.
+        unfold dn_tbl in H1, H2. unfold all_sat. rewrite sd_andor. cbn [fst]. apply in_or_app. left. cross_in wa w'; assumption.
       + pose proof (IHm1 false wa _ (incl_app_l _ _ _ Hin) Ha) as H1. pose proof (IHm3 s w' _ (incl_app_r _ _ _ Hin) Hc) as H2.
-        unfold tbl in H1, H2. unfold all_sat, all_dsat. rewrite sd_andor. destruct s; cbn [fst snd].
+        unfold dn_tbl in H1, H2. unfold all_sat, all_dsat. rewrite sd_andor. destruct s; cbn [fst snd].
         * apply in_or_app. right. cross_in wa w'; assumption.
         * cross_in wa w'; assumption.
     - (* or_b *) destruct HR as [wx [wy [vx [vy [sx [sy [-> [Hx [Hy [_ [_ [Hs [_ Hc]]]]]]]]]]]]]. specialize (Hc eq_refl).
       pose proof (IHm1 sx wx _ (incl_app_l _ _ _ Hin) Hx) as H1. pose proof (IHm2 sy wy _ (incl_app_r _ _ _ Hin) Hy) as H2.
-      unfold tbl in H1, H2. unfold all_sat, all_dsat. rewrite sd_or_b.
+      unfold dn_tbl in H1, H2. unfold all_sat, all_dsat. rewrite sd_or_b.
       destruct sx, sy; try discriminate; subst s; cbn [orb fst snd].
       * apply in_or_app. right. cross_in wx wy; assumption.
       * apply in_or_app. left. cross_in wx wy; assumption.
@@ -193,7 +193,7 @@ Section CanTable.
     - (* or_d *) unfold all_sat, all_dsat. rewrite sd_or_d. destruct HR as [[-> [Hx _]]|[wx [wy [vx [-> [Hx [_ Hy]]]]]]].
       + cbn [fst]. apply in_or_app. left. exact (IHm1 true w v Hin Hx).
       + pose proof (IHm1 false wx _ (incl_app_l _ _ _ Hin) Hx) as H1. pose proof (IHm2 s wy _ (incl_app_r _ _ _ Hin) Hy) as H2.
-        unfold tbl in H1, H2. destruct s; cbn [fst snd].
+        unfold dn_tbl in H1, H2. destruct s; cbn [fst snd].
         * apply in_or_app. right. cross_in wx wy; assumption.
         * cross_in wx wy; assumption.
     - (* or_c *) destruct HR as [-> [_ HR]]. rewrite sat_or_c. apply in_or_app.
@@ -203,9 +203,9 @@ Section CanTable.
         cross_in wx wy; assumption.
     - (* or_i *) destruct HR as [sel [w' [b [-> [_ [HR Hc]]]]]]. rewrite (Hc eq_refl). unfold all_sat, all_dsat. rewrite sd_or_i.
       destruct b; cbn [bool_bytes].
-      + pose proof (IHm1 s w' v (incl_tl' _ _ _ Hin) HR) as H1. unfold tbl in H1.
+      + pose proof (IHm1 s w' v (incl_tl' _ _ _ Hin) HR) as H1. unfold dn_tbl in H1.
         destruct s; cbn [fst snd]; apply in_or_app; left; apply in_map; exact H1.
-      + pose proof (IHm2 s w' v (incl_tl' _ _ _ Hin) HR) as H1. unfold tbl in H1.
+      + pose proof (IHm2 s w' v (incl_tl' _ _ _ Hin) HR) as H1. unfold dn_tbl in H1.
         destruct s; cbn [fst snd]; apply in_or_app; right; apply in_map; exact H1.
     - (* thresh *) destruct HR as [_ [j [HT [Hs Hc]]]]. unfold all_sat, all_dsat. rewrite sd_thresh.
       pose proof (can_thr xs H w j Hin HT) as Hin'. destruct s; cbn [fst snd].
